@@ -39,18 +39,29 @@ func init() {
 
 // lifetimeSources classifies the live sources of the stored lifetime under a pruned CFG.
 func (an *Analysis) lifetimeSources(pr *Pruned, v ssa.Value) map[string]string {
+	return an.lifetimeSourcesUnder(pr, nil, v)
+}
+
+// lifetimeSourcesUnder also descends into repo helpers (a lifetime block extracted into its own function), pruning the
+// helper under the same assumption.
+func (an *Analysis) lifetimeSourcesUnder(pr *Pruned, assume Assume, v ssa.Value) map[string]string {
 	out := map[string]string{}
-	seen := map[ssa.Value]bool{}
-	var walk func(v ssa.Value)
-	walk = func(v ssa.Value) {
-		if seen[v] {
+	type key struct {
+		v  ssa.Value
+		fn *ssa.Function
+	}
+	seen := map[key]bool{}
+	var walk func(pr *Pruned, v ssa.Value, depth int)
+	walk = func(pr *Pruned, v ssa.Value, depth int) {
+		k := key{v, pr.Fn}
+		if seen[k] || depth > 6 {
 			return
 		}
-		seen[v] = true
+		seen[k] = true
 		switch x := v.(type) {
 		case *ssa.Phi:
 			for _, e := range pr.LivePhiEdges(x) {
-				walk(e)
+				walk(pr, e, depth)
 			}
 		case *ssa.Const:
 			out["const"] = x.String()
@@ -64,12 +75,21 @@ func (an *Analysis) lifetimeSources(pr *Pruned, v ssa.Value) map[string]string {
 					out["L_reqmax"] = an.P.InstrPos(c)
 					return
 				}
+				if sc := c.Call.StaticCallee(); sc != nil && an.P.IsRepoFunc(sc) && len(sc.Blocks) > 0 {
+					pr2 := an.Prune(sc, assume)
+					pr2.LiveInstrs(func(in ssa.Instruction) {
+						if r, ok := in.(*ssa.Return); ok && x.Index < len(r.Results) {
+							walk(pr2, r.Results[x.Index], depth+1)
+						}
+					})
+					return
+				}
 			}
 			out["other"] = v.String()
 		case *ssa.Call:
 			if b, ok := x.Call.Value.(*ssa.Builtin); ok && (b.Name() == "min" || b.Name() == "max") {
 				for _, a := range x.Call.Args {
-					walk(a)
+					walk(pr, a, depth)
 				}
 				return
 			}
@@ -81,14 +101,26 @@ func (an *Analysis) lifetimeSources(pr *Pruned, v ssa.Value) map[string]string {
 				out["L_exp"] = an.P.InstrPos(x)
 				return
 			}
+			if sc := x.Call.StaticCallee(); sc != nil && an.P.IsRepoFunc(sc) && len(sc.Blocks) > 0 {
+				pr2 := an.Prune(sc, assume)
+				pr2.LiveInstrs(func(in ssa.Instruction) {
+					if r, ok := in.(*ssa.Return); ok && len(r.Results) >= 1 {
+						walk(pr2, r.Results[0], depth+1)
+					}
+				})
+				return
+			}
 			out["other"] = x.String()
 		case *ssa.Convert:
-			walk(x.X)
+			walk(pr, x.X, depth)
+		case *ssa.Parameter:
+			// a lifetime handed into a helper: judged at the call site
+			out["param:"+x.Name()] = an.P.ShortName(x.Parent())
 		default:
 			out["other"] = v.String()
 		}
 	}
-	walk(v)
+	walk(pr, v, 0)
 	return out
 }
 
@@ -110,7 +142,8 @@ func ruleC01_1(c *Ctx) {
 	}
 	// find the "Expires found" atom: bool result of the entry method that reads the Expires header
 	expiresKey := ""
-	instrsOf(ff, func(in ssa.Instruction) {
+	for _, ffTree := range c.reachableFrom(ff) {
+	instrsOf(ffTree, func(in ssa.Instruction) {
 		if call, ok := in.(*ssa.Call); ok {
 			if sc := call.Call.StaticCallee(); sc != nil && c.P.IsRepoFunc(sc) && headerCallWithKey(sc, "Get", "Expires") {
 				// "found" is the first bool result
@@ -124,6 +157,7 @@ func ruleC01_1(c *Ctx) {
 			}
 		}
 	})
+	}
 	rows := []struct {
 		name    string
 		assume  map[string]bool
@@ -146,7 +180,8 @@ func ruleC01_1(c *Ctx) {
 		c.Undecided("C01.1", "row=expires-beats-heuristic", "the Expires-present predicate is identifiable", "no entry method reading the Expires header is called from the freshness function")
 	}
 	for _, row := range rows {
-		pr := c.An.Prune(ff, AssumeKeys(closeImplications(row.assume)))
+		rowAssume := AssumeKeys(closeImplications(row.assume))
+		pr := c.An.Prune(ff, rowAssume)
 		var missingAtoms []string
 		for k := range row.assume {
 			if !pr.Used[k] {
@@ -158,7 +193,7 @@ func ruleC01_1(c *Ctx) {
 			if !pr.LiveBlock[st.Block().Index] {
 				continue
 			}
-			for k, v := range c.An.lifetimeSources(pr, st.Val) {
+			for k, v := range c.An.lifetimeSourcesUnder(pr, rowAssume, st.Val) {
 				srcs[k] = v
 			}
 		}
@@ -182,8 +217,19 @@ func ruleC01_1(c *Ctx) {
 			continue
 		}
 		if len(missingAtoms) == len(row.assume) {
-			c.Undecided("C01.1", "row="+row.name, desc, "none of the assumed atoms is evaluated in the freshness function: "+strings.Join(missingAtoms, ","), ex...)
-			continue
+			usedBelow := false
+			for _, g := range c.reachableFrom(ff) {
+				if g == ff {
+					continue
+				}
+				if len(c.An.Prune(g, rowAssume).Used) > 0 {
+					usedBelow = true
+				}
+			}
+			if !usedBelow {
+				c.Undecided("C01.1", "row="+row.name, desc, "none of the assumed atoms is evaluated in the freshness function or its helpers: "+strings.Join(missingAtoms, ","), ex...)
+				continue
+			}
 		}
 		c.Pass("C01.1", "row="+row.name, desc, ex...)
 	}
